@@ -578,6 +578,30 @@ func (it *Interp) execBlock(fr *frame, b, prev *ssa.BasicBlock) (res blockResult
 	if it.sch.cur != nil {
 		it.sch.cur.fr = fr
 	}
+	// phis are parallel assignments: all are evaluated in the predecessor's environment before any is written
+	// (a loop that swaps two variables has phis reading each other)
+	if len(b.Instrs) > 0 {
+		if _, isPhi := b.Instrs[0].(*ssa.Phi); isPhi {
+			var phis []*ssa.Phi
+			var vals []Value
+			for _, ins := range b.Instrs {
+				x, ok := ins.(*ssa.Phi)
+				if !ok {
+					break
+				}
+				for i, p := range b.Preds {
+					if p == prev {
+						phis = append(phis, x)
+						vals = append(vals, it.get(fr, x.Edges[i]))
+						break
+					}
+				}
+			}
+			for i, x := range phis {
+				fr.env[x] = vals[i]
+			}
+		}
+	}
 	for _, ins := range b.Instrs {
 		it.steps++
 		if it.steps > it.cfg.StepLimit {
@@ -604,13 +628,7 @@ func (it *Interp) execBlock(fr *frame, b, prev *ssa.BasicBlock) (res blockResult
 		}
 		switch x := ins.(type) {
 		case *ssa.DebugRef:
-		case *ssa.Phi:
-			for i, p := range b.Preds {
-				if p == prev {
-					fr.env[x] = it.get(fr, x.Edges[i])
-					break
-				}
-			}
+		case *ssa.Phi: // assigned on block entry, above
 		case *ssa.Alloc:
 			et := x.Type().(*types.Pointer).Elem()
 			fr.env[x] = Ptr{o: it.newObj(et, it.zero(et))}
